@@ -26,6 +26,7 @@ func init() {
 			{"C17-R2", "comparators are total on identity", c17r2},
 			{"C17-R3", "deterministic marshalling", c17r3},
 			{"C17-R4", "results collected from worker goroutines are not ordered by arrival", c17r4},
+			{"C17-R5", "stored EnvoyFilter patch values are neither aliased into generated objects nor edited", c17r5},
 		},
 	})
 }
@@ -972,4 +973,177 @@ func c17r4(c *Ctx) {
 	c.Stat("functions_receiving_from_channels", nFns)
 	c.Check("channel-receive loops examined", token.NoPos, nLoops >= 1, "no loop receiving from a channel found in the snapshot/generation packages (concurrentConvertToSidecarScope's workers)")
 	c.Floor(2)
+}
+
+// C17-R5: generation never aliases or edits a stored EnvoyFilter patch. The patch values (EnvoyFilterConfigPatchWrapper.
+// Value) are part of the push context, shared by every generation. If a pointer into one is put into a generated object
+// (or returned, or appended), any later merge INTO that object edits the stored patch, and the next generation - same
+// proxy, same configuration - starts from a different patch (repeated fields grow with every push). Taint analysis over
+// the functions that read Value: tainted = the loaded Value and every pointer/slice/map/interface reached from it by
+// type assertion, field load or getter; a tainted value may be read, compared, cloned (proto.Clone), used as the
+// SOURCE of a merge and handed to same-package helpers (followed); it may not be stored into another object, appended,
+// returned, captured as a merge DESTINATION, and nothing may be stored through it.
+var c17r5Exceptions = map[string]string{
+	"pilot/pkg/networking/core/envoyfilter.mergeListenerFilter|store through the patch: Name": "writes the effective filter name back into the stored MERGE value (wrong target - the sibling network/HTTP filter code renames the generated filter - but harmless for determinism: the field is read only by this function and a value read after the write equals the one written, so no output depends on it)",
+}
+
+func isRefType(t types.Type) bool {
+	switch t.Underlying().(type) {
+	case *types.Pointer, *types.Slice, *types.Map, *types.Interface:
+		return true
+	}
+	return false
+}
+
+func c17r5(c *Ctx) {
+	p := c.P
+	valF := p.Field(pkgModel, "EnvoyFilterConfigPatchWrapper", "Value")
+	type job struct {
+		fn   *ssa.Function
+		seed ssa.Value
+	}
+	var work []job
+	nSrc := 0
+	for _, fn := range p.AllFuncs {
+		if !isIstioFunc(fn) || isWrapperFn(fn) || strings.HasSuffix(p.Fset.Position(fn.Pos()).Filename, "_test.go") {
+			continue
+		}
+		pp := funcPkgPath(fn)
+		if strings.Contains(pp, "/test") || pp == istioMod+"/"+pkgModel {
+			continue // the model package builds the wrappers
+		}
+		eachInstr(fn, func(ins ssa.Instruction) {
+			if u, ok := ins.(*ssa.UnOp); ok && u.Op == token.MUL {
+				if fa, ok := u.X.(*ssa.FieldAddr); ok && fieldVar(fa.X.Type(), fa.Field) == valF {
+					work = append(work, job{fn, u})
+					nSrc++
+				}
+			}
+		})
+	}
+	reported := map[string]bool{}
+	report := func(fn *ssa.Function, pos token.Pos, what, detail string) {
+		key := stableFnName(fn) + "|" + what
+		if why, ok := c17r5Exceptions[key]; ok {
+			c.Infof("exception %s: %s", key, why)
+			return
+		}
+		k2 := key + "|" + p.Fset.Position(pos).String()
+		if reported[k2] {
+			return
+		}
+		reported[k2] = true
+		c.Check("stored EnvoyFilter patch values are neither aliased nor edited: "+key, pos, false, detail)
+	}
+	seen := map[ssa.Value]bool{}
+	var taint func(fn *ssa.Function, v ssa.Value, depth int)
+	taint = func(fn *ssa.Function, v ssa.Value, depth int) {
+		if seen[v] || v.Referrers() == nil {
+			return
+		}
+		seen[v] = true
+		for _, r := range *v.Referrers() {
+			switch x := r.(type) {
+			case *ssa.DebugRef:
+			case *ssa.TypeAssert:
+				taint(fn, x, depth)
+			case *ssa.Extract:
+				taint(fn, x, depth)
+			case *ssa.ChangeInterface:
+				taint(fn, x, depth)
+			case *ssa.ChangeType:
+				taint(fn, x, depth)
+			case *ssa.MakeInterface:
+				taint(fn, x, depth)
+			case *ssa.Phi:
+				taint(fn, x, depth)
+			case *ssa.FieldAddr:
+				// address of a field of the stored message
+				if x.X != v {
+					break
+				}
+				for _, fr := range *x.Referrers() {
+					switch y := fr.(type) {
+					case *ssa.UnOp:
+						if y.Op == token.MUL && isRefType(y.Type()) {
+							taint(fn, y, depth)
+						}
+					case *ssa.Store:
+						if y.Addr == ssa.Value(x) {
+							report(fn, y.Pos(), "store through the patch: "+fieldVar(x.X.Type(), x.Field).Name(),
+								"a field of the stored EnvoyFilter patch value is assigned during generation: the patch is shared push-context state, the next generation (and concurrent ones) start from the edited value")
+						}
+					}
+				}
+			case *ssa.Store:
+				if x.Val != v {
+					break
+				}
+				if a, ok := x.Addr.(*ssa.Alloc); ok {
+					// a local cell: loads of it carry the taint
+					for _, ar := range *a.Referrers() {
+						if u, ok := ar.(*ssa.UnOp); ok && u.Op == token.MUL {
+							taint(fn, u, depth)
+						}
+					}
+					break
+				}
+				if ia, ok := x.Addr.(*ssa.IndexAddr); ok {
+					if a, ok := ia.X.(*ssa.Alloc); ok && a.Comment == "varargs" {
+						// packed for a variadic call (append / logging): judged at the call
+						for _, ar := range *a.Referrers() {
+							if sl, ok := ar.(*ssa.Slice); ok {
+								taint(fn, sl, depth)
+							}
+						}
+						break
+					}
+				}
+				report(fn, x.Pos(), "aliased into another object",
+					"a pointer into the stored EnvoyFilter patch value is stored into another object without proto.Clone: whatever later merges into that object edits the stored patch, and generating again from the same configuration yields different bytes (repeated fields grow with every generation)")
+			case *ssa.Return:
+				report(fn, x.Pos(), "returned",
+					"a pointer into the stored EnvoyFilter patch value is returned without proto.Clone and ends up in generated configuration: a later merge into it edits the stored patch, so repeated generations differ")
+			case *ssa.Call:
+				cc := x.Call
+				if bi, ok := cc.Value.(*ssa.Builtin); ok {
+					if bi.Name() == "append" && len(cc.Args) == 2 && cc.Args[1] == v {
+						report(fn, x.Pos(), "appended",
+							"a pointer into the stored EnvoyFilter patch value is appended to generated configuration without proto.Clone: a later merge into the appended element edits the stored patch, so repeated generations differ")
+					}
+					break
+				}
+				sc := cc.StaticCallee()
+				if sc == nil {
+					// getter through an interface (proto.Message methods ...): results are not followed
+					break
+				}
+				// destination of a merge
+				if o := sc.Object(); o != nil && o.Pkg() != nil && (o.Name() == "Merge" || o.Name() == "MergeAnyWithAny" && false) && len(cc.Args) >= 1 && cc.Args[0] == v {
+					report(fn, x.Pos(), "merge destination",
+						"the stored EnvoyFilter patch value is the DESTINATION of a merge: generation edits shared push-context state")
+					break
+				}
+				// getters on the tainted receiver: pointer results stay inside the stored message
+				if sc.Signature.Recv() != nil && len(cc.Args) > 0 && cc.Args[0] == v && strings.HasPrefix(sc.Name(), "Get") && isRefType(x.Type()) {
+					taint(fn, x, depth)
+					break
+				}
+				// same-package helpers: follow into the parameter
+				if sc.Pkg != nil && fn.Pkg != nil && sc.Pkg == fn.Pkg && len(sc.Blocks) > 0 && depth > 0 {
+					for k, a := range cc.Args {
+						if a == v && k < len(sc.Params) {
+							taint(sc, sc.Params[k], depth-1)
+						}
+					}
+				}
+			}
+		}
+	}
+	for _, j := range work {
+		taint(j.fn, j.seed, 3)
+	}
+	c.Check("readers of stored patch values found", token.NoPos, nSrc >= 10, fmt.Sprintf("%d loads of EnvoyFilterConfigPatchWrapper.Value outside the model package; fewer than confirmed by hand", nSrc))
+	c.Infof("loads of the stored patch value: %d, values followed: %d", nSrc, len(seen))
+	c.Floor(1)
 }
